@@ -53,6 +53,7 @@ type KnownFinding struct {
 	Status   string `json:"status"`
 	Commit   string `json:"commit,omitempty"`
 	Harness  string `json:"harness"`
+	Params   []int64 `json:"params,omitempty"`
 	Site     string `json:"site"`
 	Class    string `json:"class"`
 	Text     string `json:"text"`
